@@ -874,6 +874,14 @@ func (e *evalEnv) call(x *ast.CallExpr) tv {
 				e.fail(x, "mapview(): values must be byte slices")
 			}
 			return tv{term: fmt.Sprintf("(mkSMap (select %s %s) (mvview (select %s %s) (select %s %s) %s))", e.st.H["MD"], m.term, e.st.H["MD"], m.term, e.st.H["ML"], m.term, e.st.H["I"]), typ: types.NewMap(mt.Key(), tString), smap: true}
+		case "chsends":
+			// chsends(): number of values the function has sent on channels so far; lastChan(): the channel of the most
+			// recent one; lastChanValue(): the (pointer) value sent
+			return tv{term: sel(e.st.H["G"], ghostChanRef, "0"), typ: tInt}
+		case "lastChan":
+			return tv{term: sel(e.st.H["G"], ghostChanRef, "1"), typ: types.NewChan(types.SendRecv, types.NewStruct(nil, nil))}
+		case "lastChanValue":
+			return tv{term: fmt.Sprintf("(mkPtr %s %s)", sel(e.st.H["G"], ghostChanRef, "2"), sel(e.st.H["G"], ghostChanRef, "3")), typ: types.NewPointer(types.NewStruct(nil, nil))}
 		case "fireAt":
 			// fireAt(ch) / isTimer(ch): ghost attributes of a channel returned by time.After
 			v := e.value(e.eval(x.Args[0]))
@@ -1517,7 +1525,7 @@ func (cs *callSite) env(st *State, old *State) *evalEnv {
 			np = 1
 		}
 		for i := 0; i < sig.params.Len(); i++ {
-			if sig.params.At(i).Name() == name {
+			if sig.params.At(i).Name() == name || name == fmt.Sprintf("arg%d", i) {
 				pt := sig.params.At(i).Type()
 				if cs.specArg[np+i] {
 					return tv{term: cs.args[np+i], typ: pt, smap: isSpecMapType(pt), spec: isSpecSeqType(pt)}, true
